@@ -232,7 +232,7 @@ def dom_nonnullable(args):
 
 
 def dom_small_count(args):
-    return args[1] is None or args[1] <= 10 ** 6
+    return args[1] is None or args[1] <= 1000      # larger counts only exhaust memory (out of scope here)
 
 
 def dom_like(args):
@@ -697,7 +697,7 @@ def run_probes(pcases, alone):
         return "died" in r and outcome_signature(r).get("class") in ("cpu-limit", "watchdog")
 
     with ThreadPoolExecutor(max_workers=16) as ex:
-        jobs = [([c], PROBE_CPU_S) for c in solo] + [(g, 20) for g in groups if g]
+        jobs = [([c], PROBE_CPU_S) for c in solo] + [(g, 10) for g in groups if g]
         for r, _ in ex.map(lambda j: vrun.run_cases(j[0], cpu_s=j[1], wall_s=60 * len(j[0]), env=ENV), jobs):
             out.update(r)
         again = [c for c in pcases if c["id"] not in out or "not_run" in out[c["id"]] or "fatal" in out[c["id"]]
@@ -1062,11 +1062,8 @@ def run(chk):
     chk.extra["random_string_byte_lengths"] = {str(k): byte_hist[k] for k in sorted(byte_hist)}
     chk.extra["exhaustive_subspaces"] = [f"all {len(small)} strings of length <= 3 over {len(ALPHA if thorough else SUB)} symbols, every one-argument form"]
 
-    # ---- function cases ----------------------------------------------------------------------------------------------
-    cases = []
-    info = {}
-    probes = []      # (form, args, class)
-    n_const = 8 if thorough else 4
+    # ---- argument tuples per group ------------------------------------------------------------------------------------
+    bases = {}
     for group, forms in FORMS.items():
         if thorough:
             g_small, g_rand = small, rand
@@ -1078,14 +1075,52 @@ def run(chk):
                 g_small = rng.sample(small, 260)
                 g_rand = rng.sample(rand, 200)
         fixed = FIXED.get(group, [])
-        base = fixed + [t for t in gen_tuples(group, rng, g_small, g_rand, thorough) if t not in set(fixed)]
+        bases[group] = fixed + [t for t in gen_tuples(group, rng, g_small, g_rand, thorough) if t not in set(fixed)]
+
+    # ---- canaries: the fixed tuples of every risky class, one statement per case, before anything is batched ----------------
+    # A class whose canaries all return a value is evaluated in bulk like everything else; a class with a canary that
+    # hangs, panics or fails stays out of the batches and is sampled through single-statement probes.
+    import time
+    t_run = time.time()
+    ccases, cinfo, calone = [], {}, set()
+    for group, forms in FORMS.items():
+        for form in forms:
+            for t in FIXED.get(group, []):
+                if form.domain is not None and not form.domain(t):
+                    continue
+                r = form.risky(t)
+                if not r or (r == "int-extreme" and not thorough and not canonical(form)):
+                    continue
+                pc = probe_cases(f"canary/{form.label}/{len(ccases)}", form, t)[0]
+                ccases.append(pc)
+                cinfo[pc["id"]] = (form, t, r)
+    cres = run_probes(ccases, calone) if ccases else {}
+    has_canary, unsafe = set(), set()
+    for pc in ccases:
+        form, t, r = cinfo[pc["id"]]
+        res = cres.get(pc["id"])
+        judge_probe(chk, agg, form, t, "const", pc, res, r)
+        has_canary.add((form.label, r))
+        if not (res and "steps" in res and res["steps"][-1]["outcome"] == "rows"):
+            unsafe.add((form.label, r))
+    chk.extra["classes_kept_out_of_batches"] = sorted(f"{l}:{r}" for (l, r) in unsafe)
+    chk.extra["phase_s"] = {"canaries": round(time.time() - t_run, 1), "canary_cases": len(ccases)}
+
+    # ---- function cases ----------------------------------------------------------------------------------------------
+    cases = []
+    info = {}
+    probes = []      # (form, args, class, skip_const)
+    n_const = 8 if thorough else 4
+    for group, forms in FORMS.items():
+        fixed = FIXED.get(group, [])
+        base = bases[group]
         for form in forms:
             tuples = [t for t in base if (form.domain is None or form.domain(t))]
             bulk = []
             risky = {}
             for t in tuples:
                 r = form.risky(t)
-                if r:
+                if r and (r == "int-extreme" or (form.label, r) not in has_canary or (form.label, r) in unsafe):
                     risky.setdefault(r, []).append(t)
                 else:
                     bulk.append(t)
@@ -1099,8 +1134,10 @@ def run(chk):
                 rest = [t for t in lst if t not in fixed]
                 if danger and not thorough and not canonical(form):
                     must = must[:1]
-                for t in must + rng.sample(rest, min(k, len(rest))):
-                    probes.append((form, t, r))
+                for t in must:
+                    probes.append((form, t, r, (form.label, r) in has_canary))
+                for t in rng.sample(rest, min(k, len(rest))):
+                    probes.append((form, t, r, False))
                 chk.count("risky_tuples_not_in_bulk", len(lst))
             # NULL in every argument position
             if bulk:
@@ -1135,11 +1172,10 @@ def run(chk):
     send = list(allc)
     # interleave so that the heavy LIKE cases spread over the shards
     rng.shuffle(send)
-    import time
     t_run = time.time()
     results, meta = vrun.run_sharded(send, shards=16, wall_s=1500 if thorough else 420, cpu_s=1200 if thorough else 300, env=ENV)
     chk.extra["process_restarts"] = meta["restarts"]
-    chk.extra["phase_s"] = {"bulk_run": round(time.time() - t_run, 1), "cases": len(send)}
+    chk.extra["phase_s"].update({"bulk_run": round(time.time() - t_run, 1), "cases": len(send)})
     t_run = time.time()
 
     retry = []
@@ -1156,9 +1192,11 @@ def run(chk):
     pcases = []
     pinfo = {}
     alone = set()
-    for n, (form, args, r) in enumerate(probes):
+    for n, (form, args, r, skip_const) in enumerate(probes):
         dangerous = (form._risky is not None and form._risky(args)) or r == "int-extreme"
         for pc in probe_cases(f"probe/{form.label}/{n}", form, args):
+            if skip_const and pc["id"].endswith("/const"):
+                continue        # already run as a canary
             if dangerous and not thorough and pc["id"].endswith("/col") and not canonical(form):
                 continue        # quick tier: hang/panic classes are probed from a table only through the canonical spelling
             if form.fn == "substring" and dangerous:
